@@ -51,7 +51,12 @@ NeedsAes == {"crypto_aead_aes256gcm" \o s : s \in {"_encrypt", "_encrypt_detache
 \* the driver's deliberately leaky self-checks: the monitor must report these (else it is not observing)
 SelfChecks == [selfcheck_branch |-> "branch", selfcheck_index |-> "address"]
 
-\* a report of kind k with innermost library frame fn during operation n is acceptable iff it is a branch on a
-\* declassified status in one of the functions allowed for n
-ReportAllowed(n, k, fn) == k = "branch" /\ fn \in OpOf(n).status
+\* a report of kind k with innermost library frame fn (stack frames) during operation n is acceptable iff it is a
+\* branch on a declassified status in one of the functions allowed for n
+\* or it comes from the software AES fallback of AEGIS (table based; the property speaks of hardware AES only)
+SoftAesFrames == {"_sodium_softaes_block_encrypt", "softaes_block_encrypt", "_sodium_softaes_invert_key_schedule256"}
+AegisOps == {p \o s : p \in {"crypto_aead_aegis128l", "crypto_aead_aegis256"}, s \in {"_encrypt", "_encrypt_detached", "_decrypt"}}
+ReportAllowed(n, k, fn, frames) ==
+  \/ k = "branch" /\ fn \in OpOf(n).status
+  \/ n \in AegisOps /\ \E i \in 1..Len(frames) : frames[i] \in SoftAesFrames
 =============================================================================
